@@ -165,6 +165,10 @@ func (r *RefSchema) Validate(data any) error {
 }
 
 func (r *RefSchema) ValidateCompatibility(typeOrData any) error {
+	return r.validateCompatibilityIn(typeOrData, comparedObjects{})
+}
+
+func (r *RefSchema) validateCompatibilityIn(typeOrData any, compared comparedObjects) error {
 	if r.referencedObjectCache == nil {
 		panic(BadArgumentError{
 			Message: fmt.Sprintf(
@@ -173,11 +177,27 @@ func (r *RefSchema) ValidateCompatibility(typeOrData any) error {
 			),
 		})
 	}
-	schemaType, ok := typeOrData.(*RefSchema)
-	if ok {
-		return r.referencedObjectCache.ValidateCompatibility(schemaType.referencedObjectCache)
+	// A reference is only ever linked to an *ObjectSchema (ApplyNamespace takes it from the scope's object table).
+	object, ok := r.referencedObjectCache.(*ObjectSchema)
+	if !ok {
+		return &ConstraintError{
+			Message: fmt.Sprintf("reference %q is linked to a %T, which cannot be compared", r.IDValue, r.referencedObjectCache),
+		}
 	}
-	return r.referencedObjectCache.ValidateCompatibility(typeOrData)
+	if producer, isSchema := ConvertToObjectSchema(typeOrData); isSchema {
+		if producerObject, ok := producer.(*ObjectSchema); ok {
+			// References are where a schema can come back on itself. A pair of objects that this comparison has entered
+			// before - the schemas are recursive and have come round, or the objects are shared between several places -
+			// is not entered again: see comparedObjects.
+			pair := [2]*ObjectSchema{object, producerObject}
+			if _, entered := compared[pair]; entered {
+				return nil
+			}
+			compared[pair] = struct{}{}
+			return object.validateCompatibilityIn(producerObject, compared)
+		}
+	}
+	return object.validateCompatibilityIn(typeOrData, compared)
 }
 
 func (r *RefSchema) Serialize(data any) (any, error) {
